@@ -105,6 +105,7 @@ Conds == {EV(EA), EV(EB), EV(Un("!", EA)), EV(Mem(Id("o"), "p")), SV("yes"), SV(
           EV(Cond(EB, Lit("0"), Lit("1"))), EV(Idx(Id("o"), Lit("'p'")))}
 Br(c, k) == [c |-> c, ch |-> <<Elem(k, <<>>, <<Text(<<P(EA)>>)>>)>>]
 ElseCh == <<Elem("e", <<>>, <<>>)>>
+NoNodes == { <<>>, <<Comment(" nothing here ")>> }
 F4 == {File1(<<If(<<Br(c, "x")>>, FALSE, <<>>)>>) : c \in Conds}
       \cup {File1(<<If(<<Br(c, "x")>>, TRUE, ElseCh)>>) : c \in Conds}
       \cup {File1(<<If(<<Br(c1, "x"), Br(c2, "y")>>, he, IF he THEN ElseCh ELSE <<>>)>>) :
@@ -112,6 +113,13 @@ F4 == {File1(<<If(<<Br(c, "x")>>, FALSE, <<>>)>>) : c \in Conds}
       \cup {File1(<<If(<<Br(EV(EA), "x"), Br(EV(EB), "y"), Br(EV(Id("s")), "z")>>, he, IF he THEN ElseCh ELSE <<>>)>>) :
                he \in BOOLEAN}
       \cup {File1(<<Text(<<S("t")>>), If(<<Br(EV(EA), "x")>>, TRUE, ElseCh), Elem("after", <<>>, <<>>)>>)}
+      (* branches that define no node at all - empty, or holding a comment only - at the start, in the middle and at the
+         end of a chain, and a chain of nothing else *)
+      \cup {File1(<<If(<<[c |-> c1, ch |-> e1], Br(c2, "y")>>, TRUE, ElseCh)>>) : c1 \in {EV(EA), EV(EB)}, c2 \in {EV(EA), EV(EB)}, e1 \in NoNodes}
+      \cup {File1(<<If(<<Br(c1, "x"), [c |-> c2, ch |-> e1]>>, he, IF he THEN ElseCh ELSE <<>>)>>) : c1 \in {EV(EA), EV(EB)}, c2 \in {EV(EA), EV(EB)}, e1 \in NoNodes, he \in BOOLEAN}
+      \cup {File1(<<If(<<Br(EV(EA), "x"), Br(EV(EB), "y")>>, TRUE, e1), Elem("after", <<>>, <<>>)>>) : e1 \in NoNodes}
+      \cup {File1(<<If(<<[c |-> EV(EA), ch |-> e1]>>, TRUE, ElseCh)>>) : e1 \in NoNodes}
+      \cup {File1(<<If(<<[c |-> EV(EA), ch |-> e1], [c |-> EV(EB), ch |-> e2]>>, TRUE, e1), Elem("after", <<>>, <<>>)>>) : e1 \in NoNodes, e2 \in NoNodes}
 
 -----------------------------------------------------------------------------
 (* F5: lists *)
@@ -180,6 +188,12 @@ ScopeShapes(body) ==
       <<For(EV(Id("l")), "x", "y", "", <<Elem("v", <<>>, body)>>), Elem("after", <<>>, body)>>,
       <<Elem("before", <<>>, body), For(EV(Id("l")), "x", "y", "", <<>>), Elem("after", <<>>, body)>>,
       <<For(EV(Arr(<<Item(Id("x")), Item(Id("item"))>>)), "x", "item", "", body)>>,
+      (* the branches of an if-chain inside a scope: the if, the elif and the else body each refer to the scope's names
+         (index 1 takes the first branch, index 0 the last) *)
+      <<For(EV(Id("l")), "x", "index", "", <<If(<<[c |-> EV(Id("index")), ch |-> <<Elem("p", <<>>, body)>>],
+                                                   [c |-> SV(""), ch |-> <<Elem("q", <<>>, body)>>]>>, TRUE, <<Elem("r", <<>>, body)>>)>>)>>,
+      <<For(EV(Id("l")), "item", "y", "", <<If(<<[c |-> SV(""), ch |-> <<Elem("p", <<>>, body)>>],
+                                                  [c |-> EV(Id("y")), ch |-> <<Elem("q", <<>>, body)>>]>>, TRUE, <<Block(body)>>)>>)>>,
       (* a <slot> element carrying a slot value itself (a forwarding slot), followed by siblings *)
       <<Elem("dyn-c", <<Attr("plain", "sv-x", SV("Sx"))>>,
              <<SlotEl(SV("inner"), <<Attr("slot:", "x", None)>>),
